@@ -101,11 +101,14 @@ MUT_W = [None, None, "keys", "dict", "dict", "tensor", "all"]  # how the LM trea
 
 
 def junk_kinds(rng, n, p_case=0.5, p_cell=0.6):
-    """per position None or a kind of non-finite garbage; it is only written where the property
-    says the scores are ignored (decided when the tensors are built, from the tokens/lengths)"""
+    """per position None or a kind of non-finite garbage; a kind of tl.JUNK_KINDS is only written
+    where the property says the scores are ignored (decided when the tensors are built, from the
+    tokens/lengths), "ninf_other" (-inf for one class that does not count: a masked vocabulary
+    entry) only where they are not"""
     if rng.random() >= p_case:
         return None
-    return [rng.choice(tl.JUNK_KINDS) if rng.random() < p_cell else None for _ in range(n)]
+    kinds = list(tl.JUNK_KINDS) + ["ninf_other"] * 3
+    return [rng.choice(kinds) if rng.random() < p_cell else None for _ in range(n)]
 
 
 def lm_options(rng, eos):
@@ -176,7 +179,15 @@ class C07(PropertyCheck):
             "True/None/False), sample (sample shapes (), (M,), (M1,M2), empty, batch shape set/unset, "
             "cache on/off with hit/other value/other shape/cleared, max_iters unset), greedy (all "
             "blank indices, lens, layouts, is_probs both ways), ctor (argument errors); tensor inputs "
-            "in float32/float64 and four memory layouts. non-trivial: an eos strictly inside the "
+            "in float32/float64 and four memory layouts; non-finite garbage (-inf rows, single -inf/+inf/NaN, "
+            "NaN rows, mixtures) in every region whose scores are ignored (out-of-vocabulary positions, "
+            "positions after the first eos, packed padding frames, frames beyond in_lens, language-model "
+            "rows of paths that already ended) and -inf (0 with is_probs) for classes that do not count; "
+            "language models that build new state dictionaries / add their keys to the dictionary they are "
+            "handed / store the updated state in it / update their state tensors in place, on every stream "
+            "that calls the model more than once per object (walk twice, log_prob twice, sample after "
+            "log_prob, the sample/log_prob/clear_cache sequences, support + values), the caller's "
+            "initial_state compared before/after. non-trivial: an eos strictly inside the "
             "tensor / a path that ended before the step limit / >= 1 repeated or blank frame removed; "
             "distinct by the full case")
     assumptions = [
@@ -185,6 +196,9 @@ class C07(PropertyCheck):
         "torch.multinomial is replaced by a replay of chosen tokens (any token of positive probability)",
         "float rounding is not modelled; tolerance stream compares with abs 2e-4 + rel 1e-5",
         "the language model is a table from histories to rows, with a threaded state that is checked",
+        "non-finite entries (garbage in ignored regions, -inf of classes that do not count) reach the "
+        "implementation; the model gets the same tensor with those entries replaced by a finite filler "
+        "(row minimum - 1): it is proved to ignore them (C07_seq_col, C07_greedy, C07_walk)",
         "argmax ties in greedy decoding are flagged and excluded from label equality",
     ]
     exhaustive = {"quick": False, "thorough": False}
@@ -514,7 +528,7 @@ class C07(PropertyCheck):
                 fr.append(row)
             frames.append(fr)
         lens = [rng.randrange(0, T + 2) for _ in range(N)] if with_lens else None
-        junk = junk_kinds(rng, N * T) if with_lens else None
+        junk = junk_kinds(rng, N * T)
         if junk is not None:
             junk = [junk[n * T:(n + 1) * T] for n in range(N)]
         return {"kind": "greedy", "V": V, "blank": blank, "batch_first": batch_first,
@@ -544,14 +558,15 @@ class C07(PropertyCheck):
             ign = ign | ((is_eos.cumsum(d) - is_eos) > 0)
         return ign
 
-    def seq_tensors(self, case, clean=False):
-        """`clean`: without the non-finite garbage in the ignored positions (what the model gets)"""
+    def seq_tensors(self, case):
         import torch
         shape, V = case["shape"], case["V"]
         hyp = torch.tensor(case["hyp"], dtype=torch.long).view(shape)
         logits = tl.from_fracs(case["logits"], case.get("dtype")).view(shape + [V])
-        if case.get("junk") and not clean and logits.numel():
-            logits = tl.put_junk(logits, self.seq_ignored(case), case["junk"])
+        if case.get("junk") and logits.numel():
+            # -inf may go to any class but the chosen token's
+            allowed = torch.arange(V).expand(shape + [V]) != hyp.unsqueeze(-1)
+            logits = tl.put_junk(logits, self.seq_ignored(case), case["junk"], allowed)
         return tl.relayout(logits, case.get("lay_logits")), tl.relayout(hyp, case.get("lay_hyp"))
 
     def impl_seq(self, case):
@@ -570,8 +585,10 @@ class C07(PropertyCheck):
 
     def req_seq(self, case):
         import torch
-        logits, hyp = self.seq_tensors(case, clean=True)
-        lsm = logits if case["exact"] else torch.nn.functional.log_softmax(logits, -1)
+        logits, hyp = self.seq_tensors(case)
+        # the model gets what the implementation's log_softmax returns, the non-finite entries
+        # (garbage in ignored positions, -inf of classes that were not chosen) replaced
+        lsm = tl.finite_fill(logits if case["exact"] else torch.nn.functional.log_softmax(logits, -1))
         nd = len(case["shape"])
         cols = None
         if -nd <= case["dim"] < nd:
@@ -586,22 +603,25 @@ class C07(PropertyCheck):
             "lsm": [tl.fs(x) for x in lsm.flatten().tolist()], "hyp": case["hyp"], "cols": cols}}
 
     # ---- packed
-    def packed_objs(self, case, clean=False):
+    def packed_objs(self, case):
         import torch
         from torch.nn.utils.rnn import pack_padded_sequence, PackedSequence
         logits = tl.from_fracs(case["logits"], case.get("dtype"))
         N = len(case["lens"])
         logits = logits.view(N, max(case["lens"]), case["V"])
         lens = torch.tensor(case["lens"])
-        if case.get("junk") and not clean:
+        if case.get("junk"):
             # ignored: the padding frames (never packed; seen by the padded reference call) and
-            # the frames whose token is out of the vocabulary
-            Tm = logits.size(1)
+            # the frames whose token is out of the vocabulary; elsewhere -inf may go to any class
+            # but the chosen token's
+            Tm, V = logits.size(1), case["V"]
             h = torch.tensor(case["hyp"], dtype=torch.long).view(N, -1)
             ign = torch.arange(Tm).unsqueeze(0) >= lens.unsqueeze(1)
+            allowed = None
             if h.size(1) >= Tm:
-                ign = ign | (h[:, :Tm] < 0) | (h[:, :Tm] >= case["V"])
-            logits = tl.put_junk(logits, ign, case["junk"])
+                ign = ign | (h[:, :Tm] < 0) | (h[:, :Tm] >= V)
+                allowed = torch.arange(V).expand(N, Tm, V) != h[:, :Tm].unsqueeze(-1)
+            logits = tl.put_junk(logits, ign, case["junk"], allowed)
         ps = pack_padded_sequence(logits, lens, batch_first=True, enforce_sorted=case["enforce_sorted"])
         if case.get("lay_data") not in (None, "contig"):
             ps = PackedSequence(tl.relayout(ps.data, case["lay_data"]), ps.batch_sizes,
@@ -638,8 +658,9 @@ class C07(PropertyCheck):
 
     def req_packed(self, case):
         import torch
-        logits, lens, ps, hyp = self.packed_objs(case, clean=True)
-        lsm = (lambda x: x) if case["exact"] else (lambda x: torch.nn.functional.log_softmax(x, -1))
+        logits, lens, ps, hyp = self.packed_objs(case)
+        lsm = (lambda x: tl.finite_fill(x)) if case["exact"] else (
+            lambda x: tl.finite_fill(torch.nn.functional.log_softmax(x, -1)))
         return {"op": "c07.packed", "case": {
             "V": case["V"], "N": hyp.size(0), "T": hyp.size(1),
             "rows": tl.tensor_fracs(lsm(ps.data)), "bs": ps.batch_sizes.tolist(),
@@ -794,9 +815,12 @@ class C07(PropertyCheck):
         va = case.get("validate_args", True)
         tabs = [{k: probs_to_logits([r])[0] for k, r in tab.items()} for tab in case["tables"]]
         dflt = probs_to_logits([case["default"]])[0]
-        lm = tl.make_lm(V, tabs, dflt, eos, shared=N is None)
+        lm = tl.make_lm(V, tabs, dflt, eos, shared=N is None, mutate=case.get("lm_mut"),
+                        default_junk=case.get("default_junk"))
         walk = RandomWalk(lm, case["eos"])
-        dist = SequentialLanguageModelDistribution(walk, N, init_state(case), T, validate_args=va)
+        init = init_state(case)
+        snap = tl.state_snapshot(init or {})
+        dist = SequentialLanguageModelDistribution(walk, N, init, T, validate_args=va)
         supp = dist.enumerate_support()
         obs = {"support_shape": list(supp.shape), "has_enumerate_support": bool(dist.has_enumerate_support)}
         rows = supp if N is None else supp[:, 0]
@@ -819,7 +843,7 @@ class C07(PropertyCheck):
             obs["support_lp"] = {"error": type(ex).__name__, "message": str(ex)[:160]}
         frac = supp[:1].to(torch.float32) + 0.5
         obs["check_fractional"] = bool(dist.support.check(frac).any())
-        valid, check = [], []
+        valid, check, value_lp = [], [], []
         for v in case["values"]:
             val = torch.tensor(v, dtype=torch.long)
             val = val.view(1, -1) if N is None else val.view(1, 1, -1).expand(1, N, -1)
@@ -827,17 +851,24 @@ class C07(PropertyCheck):
                 check.append(bool(dist.support.check(val).all()))
             except Exception as ex:
                 check.append(type(ex).__name__)
-            if va is False:
-                continue
             try:
-                dist.log_prob(val)
+                # the score of batch element 0 (tokens after the first eos may be anything)
+                value_lp.append(tl.fs(dist.log_prob(val).reshape(-1)[0]))
                 valid.append(True)
             except ValueError:
                 valid.append(False)
+                value_lp.append(None)
             except Exception as ex:
                 valid.append(type(ex).__name__)
-        obs["valid"] = None if va is False else valid
+                value_lp.append(None)
+        obs["valid"] = valid
+        obs["value_lp"] = value_lp
         obs["check"] = check
+        # the support scored once more after all those calls on the same object
+        if isinstance(obs["support_lp"], list):
+            obs["support_lp_again"] = attempt(lambda: bool(tl.same_tensor(dist.log_prob(supp), lps)))
+        obs["init_changes"] = tl.state_changes(dist.initial_state, snap) + (
+            [] if init is None else tl.state_changes(init, snap))
         return obs
 
     def req_dist(self, case):
@@ -854,7 +885,8 @@ class C07(PropertyCheck):
             "lm_default": tl.lsm_rows(probs_to_logits([case["default"]]), False)[0],
             "plm": [[{"h": [int(x) for x in k.split(",")] if k else [], "row": r}
                      for k, r in tab.items()] for tab in tabs],
-            "plm_default": case["default"], "pinned": False, "values": values}}
+            "plm_default": case["default"], "pinned": False, "values": values,
+            "validate_args": case.get("validate_args", True)}}
 
     @staticmethod
     def py_support(V, T, eos):
@@ -890,8 +922,11 @@ class C07(PropertyCheck):
                 obs[key] = {"error": type(ex).__name__, "message": str(ex)[:160]}
 
         with ctx:
+            obs["init_changes"] = []
             for cache in (True, False):
-                dist = SequentialLanguageModelDistribution(walk, N, init_state(case), T,
+                init = init_state(case)
+                snap = tl.state_snapshot(init or {})
+                dist = SequentialLanguageModelDistribution(walk, N, init, T,
                                                            cache_samples=cache, validate_args=va)
                 log = []
                 # a batched walk stops early when all its paths ended: hand each walk its own draws
@@ -915,10 +950,29 @@ class C07(PropertyCheck):
                         lp_obs(dist, part, key + "_part_lp")
                     dist.clear_cache()
                     lp_obs(dist, s, key + "_cleared_lp")
+                obs["init_changes"] += tl.state_changes(dist.initial_state, snap) + (
+                    [] if init is None else tl.state_changes(init, snap))
             if T is not None:
                 supp = dist.enumerate_support()
                 obs["support"] = (supp if N is None else supp[:, 0]).tolist()
         return obs
+
+    @staticmethod
+    def sample_trace(case):
+        """the calls impl_sample makes on one distribution object, as (observation key, op) pairs;
+        a value is given by the indices of its rows in the flattened sample"""
+        N, M = case["N"], prodl(case["shape"])
+        n = N or 1
+        R = M * n
+        s = list(range(R))
+        tr = [(None, {"op": "sample"}), ("lp", {"op": "lp", "idx": s})]
+        if M:
+            alt = [((i // n - 1) % M) * n + i % n for i in range(R)]
+            tr += [("alt_lp", {"op": "lp", "idx": alt}), ("again_lp", {"op": "lp", "idx": s})]
+            if M >= 2:
+                tr.append(("part_lp", {"op": "lp", "idx": s[n:]}))
+            tr += [(None, {"op": "clear"}), ("cleared_lp", {"op": "lp", "idx": s})]
+        return tr
 
     def req_sample(self, case):
         N = case["N"]
@@ -929,14 +983,31 @@ class C07(PropertyCheck):
             "max_iters": case["max_iters"],
             "lm": tables_json(tabs, case["exact"], dtype=case.get("dtype")),
             "lm_default": tl.lsm_rows([case["default"]], case["exact"], case.get("dtype"))[0],
-            "draws": case["draws"]}}
+            "draws": case["draws"], "validate_args": case.get("validate_args", True),
+            "trace": [op for _, op in self.sample_trace(case)]}}
 
     # ---- greedy
-    def greedy_tensors(self, case):
+    def greedy_frames(self, case):
+        """the (N, T, V) scores, garbage included"""
         import torch
         V, T = case["V"], case["T"]
         N = len(case["frames"])
         x = tl.from_fracs(case["frames"], case.get("dtype")).view(N, T, V)
+        if case.get("junk") and x.numel():
+            # ignored: the frames beyond the element's length; elsewhere a class that is not a
+            # maximum of its frame may become -inf (probability 0 with is_probs)
+            ign = torch.zeros(N, T, dtype=torch.bool) if case["lens"] is None else \
+                torch.arange(T).unsqueeze(0) >= torch.tensor(case["lens"]).unsqueeze(1)
+            allowed = x < x.max(-1, keepdim=True).values
+            x = tl.put_junk(x, ign, case["junk"], allowed,
+                            ninf=0.0 if case["stream"] == "probs" else float("-inf"))
+        return x
+
+    def greedy_tensors(self, case):
+        import torch
+        V, T = case["V"], case["T"]
+        N = len(case["frames"])
+        x = self.greedy_frames(case)
         if not case["batch_first"]:
             x = x.transpose(0, 1).contiguous()
         x = tl.relayout(x, case.get("lay_logits"))
@@ -962,17 +1033,18 @@ class C07(PropertyCheck):
         ol = out_lens.tolist()
         return {"score": [tl.fs(v) for v in mx.tolist()], "out_lens": ol, "paths_shape": pshape,
                 "paths": [paths[n, : ol[n]].tolist() for n in range(N)],
-                "module_same": bool(torch.equal(mx, mx2) and torch.equal(out_lens, out_lens2)
+                "module_same": bool(tl.same_tensor(mx, mx2) and torch.equal(out_lens, out_lens2)
                                     and all(torch.equal(paths[n, : ol[n]], paths2[n, : ol[n]]) for n in range(N))),
-                "inputs_same": bool(torch.equal(x0, x) and (lens is None or torch.equal(l0, lens)))}
+                "inputs_same": bool(tl.same_tensor(x0, x) and (lens is None or torch.equal(l0, lens)))}
 
     def req_greedy(self, case):
         import torch
         V, T = case["V"], case["T"]
         N = len(case["frames"])
-        x = tl.from_fracs(case["frames"], case.get("dtype")).view(N, T, V)
+        x = self.greedy_frames(case)
         if case["stream"] == "tol":
             x = x.log_softmax(2)
+        x = tl.finite_fill(x)
         return {"op": "c07.greedy", "case": {
             "V": V, "frames": tl.tensor_fracs(x) if T else [[] for _ in range(N)],
             "lens": case["lens"], "blank": case["blank"], "is_probs": case["stream"] == "probs"}}
@@ -1167,6 +1239,10 @@ class C07(PropertyCheck):
             out.append(f"validation impl={impl['valid']} model={m['valid'][:nv]}")
         if impl["check"] != m["check"][:nv]:
             out.append(f"support.check impl={impl['check']} model={m['check'][:nv]}")
+        for v, lp, mlp, chk in zip(case["values"], impl.get("value_lp") or [], m["log_probs"][:nv], m["check"]):
+            # (a value outside the support is only scored with validate_args=False: unspecified)
+            if chk and lp is not None and not close(lp, mlp, False):
+                out.append(f"log_prob({v}) impl={lp} model={mlp}")
         if isinstance(impl["support_lp"], list) and impl["support"] == m["support"]:
             order = C07.py_support(case["V"], case["max_iters"], norm_eos(case))
             S = len(order)
@@ -1210,6 +1286,18 @@ class C07(PropertyCheck):
                               f"(True = same as for the integer tensor)", None))
         if impl.get("check_fractional"):
             fails.append(("support.check accepts a row of non-integer values", None))
+        lm_note = (f"(language model: dictionary handling {case.get('lm_mut') or 'new dictionaries'}, rows for "
+                   f"ended paths {case.get('default_junk') or 'finite'})")
+        for v, lp, slp, chk in zip(case["values"], impl.get("value_lp") or [], s["log_probs"], model["model"]["check"]):
+            if chk and lp is not None and not close(lp, slp, False):
+                fails.append((f"log_prob({v}) = {lp} (eos={eos}), the sum over its tokens up to the first eos "
+                              f"is {slp} {lm_note}", None))
+        if impl.get("support_lp_again", True) is not True:
+            fails.append((f"log_prob(enumerate_support()) once more on the same distribution: "
+                          f"{impl['support_lp_again']} (True = same values) {lm_note}", None))
+        if impl.get("init_changes"):
+            fails.append((f"the initial_state of the distribution was modified: {impl['init_changes']} "
+                          f"{lm_note}", None))
         if s["mass"] is not None and any(Fraction(x) != 1 for x in s["mass"]):
             raise RuntimeError(f"internal: spec support mass {s['mass']} != 1")
         supp = set(map(tuple, s["support"]))
@@ -1227,6 +1315,9 @@ class C07(PropertyCheck):
                 continue
             if ok is not True and ok is not False:
                 fails.append((f"log_prob({v}) raised {ok}", None))
+            elif case.get("validate_args", True) is False:
+                if not ok:
+                    fails.append((f"log_prob({v}) raised ValueError although validate_args=False", None))
             elif member and not ok:
                 sig = "C07.validate_sample.intermediate_length" if 1 < len(v) < T else None
                 fails.append((f"log_prob rejects {v} (max_iters={T}, eos={eos}) although it is in the support", sig))
@@ -1261,13 +1352,27 @@ class C07(PropertyCheck):
         m = model["model"]
         M = prodl(case["shape"])
         out = []
+        if not model["flags"]["scored"]:
+            raise RuntimeError("internal: the walks' scores differ from the scores of the sampled rows "
+                               "(hypothesis of C07_log_prob_cache)")
         if impl["rows"] != m["rows"]:
             out.append(f"sample rows impl={impl['rows']} model={m['rows']}")
-        elif M:
-            for key in self.LP_KEYS + self.ALT_KEYS + self.PART_KEYS:
-                exp = self.expected_lp(key, m["log_probs"], M)
-                if isinstance(impl.get(key), list) and not all_close(impl[key], exp, case["exact"]):
-                    out.append(f"{key} impl={impl[key]} model={exp}")
+        else:
+            # the cache state machine of the model, call by call
+            keys = [k for k, _ in self.sample_trace(case) if k is not None]
+            for pre in ("cached", "fresh"):
+                outs = m["trace_" + pre]
+                if len(outs) != len(keys):
+                    raise RuntimeError(f"internal: trace of {len(keys)} log_prob calls, model answered {len(outs)}")
+                for k, mo in zip(keys, outs):
+                    io = impl.get(f"{pre}_{k}")
+                    if isinstance(mo, str):
+                        if not (isinstance(io, dict) and io["error"] == mo):
+                            out.append(f"{pre}_{k} impl={io} model raises {mo}")
+                    elif isinstance(io, dict):
+                        out.append(f"{pre}_{k} impl raised {io} model={mo}")
+                    elif not all_close(io, mo, case["exact"]):
+                        out.append(f"{pre}_{k} impl={io} model={mo}")
         return out
 
     def pred_sample(self, case, impl, model):
@@ -1316,6 +1421,9 @@ class C07(PropertyCheck):
                 fails.append((f"sampled row {r} is not in the support", None))
         if not all(model["spec"]["in_support"]):
             raise RuntimeError("internal: model sample outside the spec support")
+        if impl.get("init_changes"):
+            fails.append((f"the initial_state of the distribution was modified: {impl['init_changes']} "
+                          f"(language model: dictionary handling {case.get('lm_mut') or 'new dictionaries'})", None))
         same_rows = impl["rows"] == model["model"]["rows"]
         for key in self.LP_KEYS + self.ALT_KEYS + self.PART_KEYS:
             if key not in impl:
@@ -1487,6 +1595,20 @@ class C07(PropertyCheck):
             return sum(impl["out_lens"]) < fr
         return True
 
+    @staticmethod
+    def junk_tags(t, prefix, case, ignored):
+        """which kinds of non-finite garbage were really written into ignored positions"""
+        kinds, other = set(), False
+        if case.get("junk"):
+            kinds = {k for k, ig in zip(tl.flat_list(case["junk"]), ignored)
+                     if ig and k is not None and k != "ninf_other"}
+            other = any(k == "ninf_other" and not ig for k, ig in zip(tl.flat_list(case["junk"]), ignored))
+        if not kinds:
+            t.append(f"{prefix}.ignored_scores=finite")
+        for k in sorted(kinds):
+            t.append(f"{prefix}.ignored_scores={k}")
+        t.append(f"{prefix}.classes_that_do_not_count=" + ("some -inf (0 with is_probs)" if other else "finite"))
+
     def tags(self, case, impl):
         k = case["kind"]
         t = ["kind=" + k]
@@ -1494,6 +1616,10 @@ class C07(PropertyCheck):
         def lay(prefix, *names):
             for nm in names:
                 t.append(f"{prefix}.{nm}={case.get(nm) or 'contig'}")
+
+        def lm_tags(prefix):
+            t.append(f"{prefix}.lm_state_dict={case.get('lm_mut') or 'new dictionaries'}")
+            t.append(f"{prefix}.lm_rows_after_eos={case.get('default_junk') or 'finite'}")
 
         def eos_tag(prefix):
             e = case["eos"]
@@ -1506,6 +1632,7 @@ class C07(PropertyCheck):
                                 "oov" if not (0 <= case["eos"] < case["V"]) else "in"),
                   "stream=" + ("exact" if case["exact"] else "tol"), f"seq.dtype={case.get('dtype', 'f32')}"]
             lay("seq", "lay_logits", "lay_hyp")
+            self.junk_tags(t, "seq", case, self.seq_ignored(case).reshape(-1).tolist())
         elif k == "packed":
             t += [f"packed.N={len(case['lens'])}", f"packed.dim={case['dim']}",
                   f"packed.enforce_sorted={case['enforce_sorted']}",
@@ -1513,6 +1640,9 @@ class C07(PropertyCheck):
                   f"packed.dtype={case.get('dtype', 'f32')}",
                   "packed.eos_arg=" + ("unset" if case.get("eos_arg") is None else "set")]
             lay("packed", "lay_data", "lay_hyp")
+            Tm = max(case["lens"])
+            self.junk_tags(t, "packed", case, [tt >= case["lens"][n] or (tt < len(h) and not 0 <= h[tt] < case["V"])
+                                               for n, h in enumerate(case["hyp"]) for tt in range(Tm)])
         elif k == "walk":
             t += [f"walk.V={case['V']}", f"walk.T={case['max_iters']}", f"walk.N={case['N']}",
                   f"walk.batched={case['batched']}",
@@ -1520,6 +1650,7 @@ class C07(PropertyCheck):
                   f"walk.dtype={case.get('dtype', 'f32')}",
                   "walk.initial_state=" + ("unset" if case.get("sel") is None else "selects tables")]
             eos_tag("walk")
+            lm_tags("walk")
             lay("walk", "lm_layout")
             if not self.err(impl) and case["max_iters"] is not None and impl["rows"] < case["max_iters"]:
                 t.append("walk.early_break")
@@ -1528,6 +1659,7 @@ class C07(PropertyCheck):
                   f"dist.validate_args={case.get('validate_args', True)}",
                   "dist.initial_state=" + ("unset" if case.get("sel") is None else "selects tables")]
             eos_tag("dist")
+            lm_tags("dist")
         elif k == "sample":
             t += [f"sample.shape={case['shape']}", f"sample.batch={case['N']}",
                   f"sample.max_iters={'unset' if case['max_iters'] is None else 'set'}",
@@ -1536,6 +1668,7 @@ class C07(PropertyCheck):
                   "sample.initial_state=" + ("unset" if case.get("sel") is None else "selects tables"),
                   "stream=" + ("exact" if case["exact"] else "tol")]
             eos_tag("sample")
+            lm_tags("sample")
             lay("sample", "lm_layout")
             if not self.err(impl) and case["max_iters"] is not None and prodl(case["shape"]) \
                     and impl["shape"][-1] < case["max_iters"]:
@@ -1550,6 +1683,8 @@ class C07(PropertyCheck):
                   "stream=" + {"probs": "exact(is_probs)", "logp": "exact", "tol": "tol"}[case["stream"]],
                   f"greedy.dtype={case.get('dtype', 'f32')}"]
             lay("greedy", "lay_logits", "lay_lens")
+            self.junk_tags(t, "greedy", case, [case["lens"] is not None and tt >= case["lens"][n]
+                                               for n in range(len(case["frames"])) for tt in range(case["T"])])
         elif k == "ctor":
             t.append("ctor." + case["what"])
         elif k == "advance":
@@ -1572,6 +1707,15 @@ class C07(PropertyCheck):
                 c = dict(case)
                 c[f] = plain
                 yield c
+        for f in ("lm_mut", "default_junk"):
+            if case.get(f) is not None:
+                c = dict(case)
+                c[f] = None
+                yield c
+        if case.get("junk"):
+            c = dict(case)
+            c["junk"] = None
+            yield c
         if k == "seq":
             yield from self.shrink_seq(case)
         elif k == "walk":
@@ -1615,11 +1759,23 @@ class C07(PropertyCheck):
                     c = dict(case)
                     c["frames"] = [f for i, f in enumerate(case["frames"]) if i != drop]
                     c["lens"] = None if case["lens"] is None else [l for i, l in enumerate(case["lens"]) if i != drop]
+                    if case.get("junk"):
+                        c["junk"] = [f for i, f in enumerate(case["junk"]) if i != drop]
                     yield c
             if case["T"] > 0:
                 c = dict(case)
                 c["T"] = case["T"] - 1
                 c["frames"] = [f[:-1] for f in case["frames"]]
+                if case.get("junk"):
+                    c["junk"] = [f[:-1] for f in case["junk"]]
+                yield c
+                # drop the first frame instead
+                c = dict(case)
+                c["T"] = case["T"] - 1
+                c["frames"] = [f[1:] for f in case["frames"]]
+                c["lens"] = None if case["lens"] is None else [max(l - 1, 0) for l in case["lens"]]
+                if case.get("junk"):
+                    c["junk"] = [f[1:] for f in case["junk"]]
                 yield c
             if case["lens"] is not None:
                 c = dict(case)
@@ -1638,6 +1794,8 @@ class C07(PropertyCheck):
                     c["lens"] = lens
                     c["hyp"] = [h for i, h in enumerate(case["hyp"]) if i != drop]
                     c["logits"] = [h for i, h in enumerate(case["logits"]) if i != drop]
+                    if case.get("junk"):
+                        c["junk"] = [h for i, h in enumerate(case["junk"]) if i != drop]
                     yield c
 
     def shrink_seq(self, case):
@@ -1657,6 +1815,9 @@ class C07(PropertyCheck):
                     c["shape"] = list(h.shape)
                     c["hyp"] = h.reshape(-1).tolist()
                     c["logits"] = [case["logits"][i] for i in ii.reshape(-1).tolist()]
+                    if case.get("junk"):
+                        pos = torch.arange(prodl(shape)).view(shape).narrow(ax, sl.start, sl.stop - sl.start)
+                        c["junk"] = [case["junk"][i] for i in pos.reshape(-1).tolist()]
                     yield c
         if nd > 1:
             d = case["dim"] % nd
